@@ -39,7 +39,10 @@ MUTATORS = ["set_form", "set_frame", "set_coord", "set_meta", "mutate_meta", "ap
 MAKERS = ["copy", "copy_form", "copy_frame", "copy_both", "copy_same", "pickle", "as_orbit", "as_statevector",
           "cov_copy", "clone", "late_frame"]
 COV_FRAMES = FRAMES + ["QSW", "TNW", "QSW", "TNW"]
-FAILING = ["bad_form", "bad_frame", "hill", "wrong_param"]
+FAILING = ["bad_form", "bad_frame", "hill", "wrong_param", "late_fail"]
+# frames registered by vf/props/c15.py whose use fails LATE: axes known, origin not (a tabulated chief whose table
+# ends in 1990; an orbit without propagator) - and one that fails early (local axes need the reference too)
+LATE_TARGETS = ["VF15chief", "VF15chief", "VF15mute", "VF15chiefQ"]
 
 
 def _meta_value(d):
@@ -147,6 +150,8 @@ def _op(d, kind):
         op.update(name=d.pick(*BAD_FRAMES), via=d.pick("set", "copy"))
     if kind == "hill":
         op["via"] = d.pick("set", "copy")
+    if kind == "late_fail":
+        op.update(target=d.pick(*LATE_TARGETS), via=d.pick("set", "set", "copy"))
     if kind == "wrong_param":
         op.update(k=d.int(0, 40), how=d.pick("get_attr", "get_item", "set_attr", "set_item"))
     return op
@@ -185,6 +190,18 @@ def history(draw, max_ops=6):
         else:
             move["frame"] = b
         ops[0] = move
+    if scenario == 2:
+        # scenario: a state with a covariance (own frame / other frame / local) and maneuvers is asked to move to a
+        # frame whose axes are known but whose origin is not defined at its date
+        init[0]["cov"] = dict(_cov(d), frame=d.pick(None, None, None, "QSW", "TNW"))
+        if d.coin():
+            init[0]["mans"] = [_man(d)]
+        fail = _op(d, "late_fail")
+        fail["i"] = 0
+        k = d.int(0, min(1, len(ops) - 1))
+        ops[k] = fail
+        if k == 1:
+            ops[0] = dict(_op(d, d.pick("set_cov_frame", "set_form", "copy", "set_frame")), i=0)
     if scenario == 0:
         # scenario: a covariance attached in an inertial frame is moved in place to a rotating frame
         # (with its state, or alone), and only then the object is copied
